@@ -2,7 +2,7 @@ from pat import *
 from expr import fmt, walk
 from harness import Skip
 from guards import phi_defs, block_conditions, edge_conditions, dominates_accepts_deep, SWAP
-from rules.common import adapters_in, calls_named, req, strip, S
+from rules.common import adapters_in, calls_named, req, strip, S, find_rel_edges
 
 INFO = {
     "explanation": "PARTIAL. Decided: the clauses of C10 that are visible in the shape of the code. (G) size and capacity violations "
@@ -414,6 +414,7 @@ def run_shape(ctx):
         lj = [m for m in mas if AnyLocal()(m[1][2][0]) and m[1][2][0][0] == "phi" and uj and m[1][2][1] == uj[0][1][2][1]]
         LV = Same(lj[0][1][2][0]) if len(lj) == 1 else (lambda e: False)
         good = len(uj) == 1 and len(lj) == 1 and len(aas) == 1
+        inner = outer = isrc = None
         detail = "expected `l *= d`, `*u_j *= d` and one `*u_j += ..`"
         if good:
             inner = g.loop_of(uj[0][0])
@@ -448,18 +449,24 @@ def run_shape(ctx):
             detail = "*u_j += (l * wn_i) * poly[i] (after the multiplication by d) not found: %s" % fmt(a)[:200]
         req(ctx, rule, K + "barycentric-recurrence", good, "for each node i >= 1: l *= d; d = wn_i - x; every u_j = u_j * d + (l * wn_i) * y_ji",
             "poly_eval_lagrange_batched: %s" % detail, loc=f.loc)
-        # initial values and final scaling
-        fe = calls_named(ctx, f, "for_each")
-        neg = [e for e in g.edges if e.cond[0] == "rel" and e.cond[1] == "Gt" and Len(roots)(e.cond[2]) and Lit(1)(e.cond[3])]
-        good = len(fe) == 1 and 'isrc' in dir() and isrc is not None and fe[0][1][2][0] == isrc[2][0] and adapters_in(fe[0][1]) == [] and len(neg) == 1
+        # initial values and final scaling: a loop over all results (written `for_each`, desugared to a loop) multiplying by
+        # a value whose definitions are inv_pow2(n) and its negation (n > 1)
+        neg = find_rel_edges(g, "Gt", Len(roots), Lit(1))
+        sc = [m for m in mas if outer is not None and g.loop_of(m[0]) is not None and m[0] not in outer[1]]
+        good = len(sc) == 1 and len(neg) == 1 and isrc is not None
         if good:
-            # the closure multiplies every result by a captured value whose definitions are inv_pow2(n) and its negation
-            cl = fe[0][1][2][1]
-            caps = [x for x in (cl[2] if cl[0] == "closure" else ()) if isinstance(x, tuple) and x[0] == "phi"]
-            good = len(caps) == 1
+            lp = g.loop_of(sc[0][0])
+            sitem, ssrc = item_of(lp[1], b, g)
+            fac = sc[0][1][2][1]
+            fac = fac if fac[0] == "phi" else (strip(fac) if strip(fac)[0] == "phi" else fac)
+            raw = [g.eb.operand(b.blocks[x].term.args[0]) for x in sorted(lp[1]) if b.blocks[x].term.kind == "call" and
+                   b.blocks[x].term.callee.path == "std::iter::Iterator::next"]
+            same_src = (ssrc is not None and S(Same(isrc[2][0]))(ssrc)) or (len(raw) == 1 and S(Same(isrc[2][0]))(raw[0]))
+            good = same_src and (ssrc is None or not adapters_in(ssrc)) and sitem is not None and sitem(sc[0][1][2][0]) and fac[0] == "phi" and \
+                b.dominates(outer[0], lp[0]) and all(b.dominates(sc[0][0], t) for (t, hh) in b.back_edges() if hh == lp[0])
             if good:
-                ds = [dd[0] for dd in phi_defs(g, caps[0][1])]
-                good = len(ds) == 2 and any(Call("inv_pow2", Len(roots))(dd) for dd in ds) and any(Un("Neg", Same(caps[0]))(dd) for dd in ds)
+                ds = [dd[0] for dd in defs_deep(g, fac[1])]
+                good = len(ds) == 2 and any(Call("inv_pow2", Len(roots))(dd) for dd in ds) and any(Un("Neg", Same(fac))(dd) for dd in ds)
         req(ctx, rule, K + "scaling", good, "every u_j *= (n > 1 ? -1/n : 1/n)", "the final scaling by +-1/n over all results is missing or wrong", loc=f.loc)
     except (Skip, IndexError):
         ctx.bad(rule, "R-C10.S:poly_eval_lagrange_batched:shape", "unexpected shape of poly_eval_lagrange_batched", kind="anchor")
